@@ -12,4 +12,6 @@ extern const char *verif_msg; extern size_t verif_msg_len; extern size_t verif_m
 extern int verif_content_ok;              /* all bytes handed to the OS so far matched the expected record at the ghost index */
 extern size_t verif_stdio_cap;            /* capacity of a stdio buffer (symbolic, as glibc picks st_blksize) */
 extern size_t verif_pending_stdout;       /* bytes sitting in stdout's user-space buffer */
+extern unsigned long verif_sigmask, verif_sigmask0; extern int verif_sig_disposition_changed;   /* ghost: blocked-signal set now / at entry */
+#define VERIF_ASSERT_SIGNALS_UNTOUCHED() __CPROVER_assert(verif_sigmask == verif_sigmask0 && !verif_sig_disposition_changed, "output: the signal mask and the signal handlers are as the caller left them (for every mask the caller may have)")
 void verif_effects_init(const char *msg, size_t len, int fail_mode);
